@@ -259,6 +259,14 @@ def doWriteAppendFirstCtxFail (s : St) (id ln extra : Nat) : St :=
   { s with len := s.dbo + plen ln + extra,
            done := s.done ++ [⟨true, id, plen ln, s.dbo + plen ln⟩] ++ svcRec extra (s.dbo + plen ln + extra) }
 
+/-- NOT the code (seeded change C17-r6-1, `savepointOnlyFor plainWrites`): the automatic savepoint is opened only before a
+    statement whose text starts with INSERT/UPDATE/DELETE/REPLACE. In the code it is opened before the FIRST modifying
+    statement of a callback whatever its shape (CTE-prefixed write, upsert, DDL through ExecUnsafe …), which is why the
+    statement shape does not enter the model. Under the seeded rule a failing callback whose first write is not "plain"
+    keeps that write: ROLLBACK TO undoes nothing. -/
+def failedCallbackSavepointOnlyForPlainWrites (s : St) (id : Nat) (firstIsPlain : Bool) : St :=
+  if firstIsPlain then s else { s with tx := ⟨s.tx.rows ++ [id], s.tx.off⟩ }
+
 def doRead (s : St) (id : Nat) : St × String :=
   -- a read that finds parked calls is parked behind them; what it has seen is the write transaction up to its offset row
   if s.wait && !s.waitQ.isEmpty then (park s id s.tx.off true, s!"wait dbo={s.dbo} asap=0")
